@@ -223,6 +223,16 @@ def float_correspondence(outcome, tier, seed):
         elif impl != mtxt + "\n":
             outcome.disagreements.append({"what": "MessagePack float64 -> JSON: the text xt writes differs from the model of serde_json's serialize_f64 / ryu (JsonFloatModel.json_f64)",
                                           "bits_hex": b.hex(), "input_hex": "cb" + b.hex(), "implementation": impl[:80], "model": mtxt[:80]})
+    if tier == "thorough":
+        # extraction cross-check: Coq's own evaluator on a sample of the values the extracted model answered
+        picked = []
+        for i, b in enumerate(pool):
+            st, _, mh = model.get("%df" % i, "missing -").partition(" ")
+            if st in ("ok", "nonfinite") and mh not in ("", "-") and 0x3000 <= int.from_bytes(b[:2], "big") & 0x7FFF <= 0x4FFF:
+                picked.append((b, bytes.fromhex(mh), True))      # moderate exponents: seconds, not minutes, under vm_compute
+        step = max(1, len(picked) // 150)
+        shared.kernel_crosscheck(outcome, "json_f64", "Base Utf8 MsgpackModel JsonModel JsonWriteModel JsonFloatModel",
+                                 "fun i => (json_f64 (fold_left (fun a b => (a * 256 + b)%N) i 0%N), true)", picked[::step][:150])
     outcome.evaluations += len(pool)
     outcome.traces_validated += len(pool)
     outcome.distinct_nontrivial += len(pool)
